@@ -298,7 +298,33 @@ def pureQuery : List String → Option String
   | ["ethmsg", digest] => some (hexOfBytes (ethSignedMessage (hexToBytes digest)))
   | _ => none
 
+/-- `ExportGenesis` followed by `InitGenesis` on a fresh instance (x/mhub2/keeper/genesis.go,
+    x/oracle/keeper/genesis.go): what survives a genesis round trip at cosmos height `h.height`. -/
+def ChainSt.exportImport (c : ChainSt) (height : Nat) : ChainSt :=
+  -- delegate keys are exported from the validator→address index, the orchestrator looked up per address
+  let keys := c.valExt.filterMap fun (v, e) => (alGet c.extOrch e).map fun o => (v, e, o)
+  { lastObserved := c.lastObserved
+    outSeq := c.outSeq
+    lastBatchNonce := c.lastBatchNonce
+    lastObservedSet := c.lastObservedSet
+    obsExtHeight := c.obsExtHeight
+    obsCosmosHeight := height
+    lastNonceBy := c.lastNonceBy
+    valExt := keys.foldl (fun l k => alSet l k.1 k.2.1) []
+    orchVal := keys.foldl (fun l k => alSet l k.2.2 k.1) []
+    extOrch := keys.foldl (fun l k => alSet l k.2.1 k.2.2) [] }
+
+def Hub.exportImport (h : Hub) : Hub :=
+  { chains := h.chains, tokens := h.tokens, params := h.params, staking := h.staking, prices := h.prices,
+    holders := h.holders, bal := h.bal, supply := h.supply, height := h.height, time := h.time,
+    cs := h.chains.map fun c => (c, (h.chain c).exportImport h.height) }
+
+def OracleSt.exportImport (o : OracleSt) : OracleSt := { epoch := 1, prices := o.prices, holders := o.holders }
+
 def step (w : World) (line : String) : World × String :=
+  if line.trimAscii.toString == "export_import" then
+    ({ hub := w.hub.exportImport, oracle := w.oracle.exportImport }, "ok")
+  else
   match pureQuery ((line.trimAscii.toString.splitOn " ").filter (· != "")) with
   | some o => (w, o)
   | none => applyW w (parseOp line)
